@@ -165,6 +165,8 @@ fn child(args: &Args) {
         let r = history(
             &mut rng, &fresh, &mut used, &mut out, &mut next_cid, &mut next_op, args, h,
         );
+        // (from_static registrations never expire: from here on the slots reject everything)
+        vlib::rec::static_clear();
         if let Err((what, w)) = r {
             out.violation(what, w);
             // after a violation the process-wide caches may be in an unknown state; stop
@@ -194,6 +196,7 @@ fn history(
     let mut stacks: Vec<Vec<usize>> = vec![vec![]; nthreads];
     let nops = 12 + rng.usize(29);
     let mut ops: Vec<String> = vec![];
+    let mut zused = 0usize;
     out.count("histories", 1);
 
     let witness = |ops: &Vec<String>, extra: Value| -> Value {
@@ -231,10 +234,24 @@ fn history(
                 *next_cid += 1;
                 let arc = Arc::new(FilterCollector::new(cid, spec, flag));
                 let a2 = arc.clone();
-                let d = workers
-                    .run(t, move || vlib::rec::dispatch_of(a2, cid))
-                    .map_err(|p| ("panic in Dispatch::new".to_string(), witness(&ops, json!({"panic": p}))))?;
-                ops.push(format!("New(t{t}, c{} = {} flag={flag}, handed to Dispatch::new as {})", cols.len(), spec.code(), vlib::rec::DISPATCH_HOW[(cid % 4) as usize]));
+                // a quarter of the histories also use `Dispatch::from_static` over zero-sized
+                // collectors that live in statics (three distinct types, possibly one address)
+                let as_static = hidx % 4 == 1 && zused < 3 && rng.chance(1, 2);
+                let d = if as_static {
+                    let k = zused;
+                    zused += 1;
+                    out.count("collectors_in_zero_sized_statics(Dispatch::from_static)", 1);
+                    workers.run(t, move || vlib::rec::static_dispatch(k, a2))
+                } else {
+                    workers.run(t, move || vlib::rec::dispatch_of(a2, cid))
+                }
+                .map_err(|p| ("panic in Dispatch::new".to_string(), witness(&ops, json!({"panic": p}))))?;
+                ops.push(format!(
+                    "New(t{t}, c{} = {} flag={flag}, {})",
+                    cols.len(),
+                    spec.code(),
+                    if as_static { format!("Dispatch::from_static(&Z{}) zero-sized static", zused - 1) } else { format!("handed to Dispatch::new as {}", vlib::rec::DISPATCH_HOW[(cid % 4) as usize]) }
+                ));
                 cols.push(CState {
                     arc,
                     handle: Some(d),
